@@ -4,6 +4,7 @@ pub mod c07;
 pub mod c10;
 pub mod c11;
 pub mod c18;
+pub mod c20;
 pub mod c32;
 pub mod c40;
 pub mod docpool;
@@ -46,6 +47,9 @@ pub fn run(prop: &str, args: &Args) -> i32 {
         "C10" => c10::run(args),
         "C11" => c11::run(args),
         "C18" => c18::run(args),
+        "C20" => c20::run_c20(args),
+        "C21" => c20::run_c21(args),
+        "C22" => c20::run_c22(args),
         "C32" => c32::run(args),
         "C40" => c40::run(args),
         _ => {
